@@ -1,7 +1,7 @@
 (* C13  Primary keys identify items faithfully and are enforced. *)
 From Coq Require Import List Bool Strings.String.
 From Minidyn Require Import Base.Str Base.FMap Base.Outcome Model.Value Model.Key Model.Index Model.Table Model.Client.
-From Minidyn Require Import Proofs.KeyFacts Proofs.TableInv Proofs.ClientInv Proofs.KeyInv.
+From Minidyn Require Import Proofs.KeyFacts Proofs.TableInv Proofs.ClientInv Proofs.KeyInv Proofs.KeyTyped.
 Import ListNotations.
 
 Theorem C13_key_injective_hash_only :
@@ -47,3 +47,22 @@ Proof. exact KInv_reachable. Qed.
 Theorem C13_key_item_same_key :
   forall ks defs it, get_key ks defs (key_item ks it) = get_key ks defs it.
 Proof. exact get_key_key_item. Qed.
+
+(* a key attribute is declared with a key type - S, N or B - (fix d92fdf4: with BOOL, a set, a list or a map the key string
+   was built from a pointer value and equal keys never met): the schema check of CreateTable / AddTable / index creation
+   refuses anything else, and so the key attributes of every table have a key type in every reachable state, for
+   every history (UpdateTable can not re-type them) *)
+Theorem C13_schema_check_demands_key_types :
+  forall defs oh orr h r,
+    check_schema defs oh orr = Some (h, r) -> key_typed defs h = true /\ (r = [] \/ key_typed defs r = true).
+Proof. exact check_schema_key_typed. Qed.
+
+Theorem C13_non_key_type_refused :
+  forall defs oh orr h, oh = Some h -> key_typed defs h = false -> check_schema defs oh orr = None.
+Proof. exact non_key_type_refused. Qed.
+
+Theorem C13_key_types_reachable :
+  forall lm lu sdk ops cn tn c t,
+    lookup cn (fst (run lm lu sdk [] ops)) = Some c -> lookup tn (c_tables c) = Some t ->
+    key_typed (t_defs t) (hashk (t_ks t)) = true /\ (rangek (t_ks t) = [] \/ key_typed (t_defs t) (rangek (t_ks t)) = true).
+Proof. exact key_types_reachable. Qed.
